@@ -11,9 +11,10 @@ def C04():
     from contracts.replay_pagination import replay_assign_pages
     return Property(
         "C04",
-        units=[ContractUnit(AssignPages())],
+        units=[ContractUnit(AssignPages())] + _strategy_units(),
         level="proof",
-        technique="loop invariant + postconditions on the real AST of PageBreakCalculator._assign_pages, VCs by z3/cvc5",
+        technique="loop invariant + postconditions on the real AST of PageBreakCalculator._assign_pages; the three paginate() strategies forward "
+                  "page_by / subline_by / new_page (SublineStrategy: new_page=True) and cut pages as the intervals; VCs by z3/cvc5",
         trusted_base=[SOLVERS, ENGINE, POLARS],
         assumptions=["str() injective on non-null group keys of one dtype (flags computed in calculate_row_metadata)"],
         replayers={"pagination/core.py::PageBreakCalculator._assign_pages": replay_assign_pages},
@@ -26,13 +27,12 @@ def C06():
     from contracts import replayers as R
     return Property(
         "C06",
-        units=[ContractUnit(ShouldShow()), ContractUnit(ShouldShowElement()), ContractUnit(PageBreak()), ContractUnit(PageSettings())],
+        units=[ContractUnit(ShouldShow()), ContractUnit(ShouldShowElement()), ContractUnit(PageBreak()), ContractUnit(PageSettings())] + _strategy_units(),
         level="proof",
         technique="postconditions on the placement predicates and on the page-break / page-settings emitters (token view of the built string), VCs by z3",
         trusted_base=[SOLVERS, ENGINE, "round(): deterministic function with |round(x)-x| <= 1/2; floats treated as reals (L3)",
                       "RTF reader interprets \\paperw/\\paperh/\\marg* as the specification says (L4)"],
-        assumptions=["chunk order of PageRenderer.render / _encode_figure_only and needs_header in the paginate strategies are "
-                     "not yet under contract in this check (listed in DESIGN 4/C06)"],
+        assumptions=["chunk order of PageRenderer.render / _encode_figure_only is not yet under contract in this check (listed in DESIGN 4/C06)"],
         replayers={"services/document_service.py::RTFDocumentService.generate_page_break": R.replay_page_geometry,
                    "rtf/syntax.py::RTFSyntaxGenerator.generate_page_settings": R.replay_page_geometry,
                    "encoding/renderer.py::PageRenderer._should_show": R.replay_should_show,
@@ -231,6 +231,11 @@ def C01():
         design_ref="4/C01, A14")
 
 
+def _strategy_units():
+    from contracts.strategies import UNITS, LEMMAS
+    return [ContractUnit(u) for u in UNITS] + LEMMAS
+
+
 def C02():
     from contracts.attributes import EncodeRows
     from contracts.renderer import RenderBody
@@ -238,13 +243,14 @@ def C02():
     from contracts.pagination_core import AssignPages
     from contracts.replay_pagination import replay_assign_pages
     return Property(
-        "C02", units=[ContractUnit(EncodeRows()), ContractUnit(RenderBody()), ContractUnit(RowAsRtf()), ContractUnit(TextAsRtf()), ContractUnit(AssignPages())],
+        "C02", units=[ContractUnit(EncodeRows()), ContractUnit(RenderBody()), ContractUnit(RowAsRtf()), ContractUnit(TextAsRtf()), ContractUnit(AssignPages())]
+        + _strategy_units(),
         level="proof",
         technique="row-view contracts: _assign_pages pages are consecutive intervals covering all rows; _render_body emits every page row exactly once in order; "
                   "_encode emits one Row per frame row whose cell j shows the display text of cell (i, j) in column order; Row._as_rtf keeps cell order; one delimiter space before the text",
         trusted_base=[SOLVERS, ENGINE, POLARS, "polars slice / df[a:b] row-interval semantics (assumed)"],
-        assumptions=["the three paginate() strategies (page = interval slice), _apply_data_post_processing (re-cut on the column-reduced frame) and "
-                     "prepare_dataframe_for_body_encoding (column removal keeps order) are not yet under contract in this check; multi-section order likewise"],
+        assumptions=["_apply_data_post_processing (re-cut on the column-reduced frame) and prepare_dataframe_for_body_encoding (column removal keeps "
+                     "order) are not yet under contract in this check; multi-section order likewise; calculate_row_metadata is used through AssignPages' ensures"],
         replayers={"pagination/core.py::PageBreakCalculator._assign_pages": replay_assign_pages},
         design_ref="4/C02")
 
@@ -252,13 +258,13 @@ def C02():
 def C05():
     from contracts.renderer import RenderBody
     return Property(
-        "C05", units=[ContractUnit(RenderBody())], level="proof",
+        "C05", units=[ContractUnit(RenderBody())] + _strategy_units(), level="proof",
         technique="ghost heading state (displayed value and position per page_by level) in the loop invariant of the real PageRenderer._render_body, "
                   "inner level loop unrolled for the property's 1-3 levels; obligations at every row emission",
         trusted_base=[SOLVERS, ENGINE, POLARS],
         assumptions=["str() injective on non-null keys; a non-null key's text is not the literal 'None'",
-                     "_get_group_headers / _detect_group_boundaries (the boundaries' contract assumed here), render step 7 (page-top headings), the "
-                     "subline_by heading paragraph and the heading budget in calculate_row_metadata are not yet under contract in this check"],
+                     "render step 7 (page-top headings from pageby_header_info), the subline_by heading paragraph emitter and the heading budget in "
+                     "calculate_row_metadata are not yet under contract in this check"],
         replayers={}, design_ref="4/C05, A7")
 
 
@@ -288,13 +294,13 @@ def C09():
     return Property(
         "C09", units=[ContractUnit(Iloc()), ContractUnit(ToList()), ContractUnit(UpdateCell()), ContractUnit(EncodeRows()), ContractUnit(RenderBody()),
                       ContractUnit(PaginationBorders()), ContractUnit(CellAsRtf()), ContractUnit(BorderAsRtf()), ContractUnit(TextFormatting()),
-                      ContractUnit(ParagraphFormatting())] + LEMMAS,
+                      ContractUnit(ParagraphFormatting())] + LEMMAS + _strategy_units(),
         level="proof",
         technique="binding obligations at every constructor call of the real TableAttributes._encode: each formatting field of cell (i, j) is "
                   "attr.iloc(i + row_offset, j); BroadcastValue.iloc = value[r mod R][c mod C]; _render_body passes the page-relative offset; emitters emit every field",
         trusted_base=[SOLVERS, ENGINE, POLARS],
-        assumptions=["the map from page-relative to ORIGINAL row index (PageContext / per-page attribute copy) and the attribute column slicing in "
-                     "prepare_dataframe_for_body_encoding are not yet under contract in this check (matrix attributes across page breaks: see DESIGN 5)"],
+        assumptions=["the attribute column slicing in prepare_dataframe_for_body_encoding after page_by/subline_by removal is not yet under contract in this check",
+                     "PaginationBorders uses a representative-field abstraction of type(page_attrs).model_fields (two border matrices + one generic matrix attribute)"],
         replayers={"attributes.py::BroadcastValue": R.replay_broadcast}, design_ref="4/C09, A5-A6")
 
 
